@@ -34,6 +34,15 @@ class Invalid(Exception):
     pass
 
 
+def split_key(k: str) -> T.Tuple[T.Optional[str], str]:
+    """'name' -> (None, name); ':name' -> ('', name): the top-level project only; 'sub:name' -> ('sub', name)."""
+    if k.startswith(':'):
+        return '', k[1:]
+    if k.startswith(SUB + ':'):
+        return SUB, k.split(':', 1)[1]
+    return None, k
+
+
 def fmt(o: T.Dict[str, T.Any], v: T.Any) -> str:
     """How '@0@'.format(get_option(x)) prints a value."""
     t = o['type']
@@ -114,6 +123,8 @@ class Model:
         return copy.deepcopy(self)
 
     def _def_for(self, key: str, table: T.Dict[str, T.Any]) -> T.Optional[T.Dict[str, T.Any]]:
+        if key.startswith(':'):
+            return table['top'].get(key[1:])       # ':opt' is the top-level project's option `opt`
         if key.startswith(SUB + ':'):
             t = table.get('sub')
             return None if t is None else t.get(key.split(':', 1)[1])
@@ -145,8 +156,8 @@ class Model:
         """Validate -D assignments against `table` (files or known); returns typed values, raises Invalid."""
         out: T.Dict[str, T.Any] = {}
         for k, s in D.items():
-            name = k.split(':', 1)[1] if k.startswith(SUB + ':') else k
-            if name in BUILTIN_CHOICES and (k == name or k.startswith(SUB + ':')):
+            name = split_key(k)[1]
+            if name in BUILTIN_CHOICES:
                 if k.startswith(SUB + ':') and table.get('sub') is None:
                     raise Invalid(k)
                 if s not in BUILTIN_CHOICES[name]:
@@ -161,13 +172,15 @@ class Model:
 
     def _store(self, typed: T.Dict[str, T.Any]) -> None:
         for k, v in typed.items():
-            name = k.split(':', 1)[1] if k.startswith(SUB + ':') else k
+            proj, name = split_key(k)
             if name in BUILTIN_CHOICES:
-                if k.startswith(SUB + ':'):
-                    self.aug[k] = v
+                if proj is not None:
+                    self.aug[k] = v          # 'sub:k' and ':k' (top-level project only) override the global value
                 else:
                     self.builtin[k] = v
             else:
+                if proj == '':
+                    k = name                 # ':opt' and 'opt' are one and the same project option
                 self.vals[k] = v
                 if k.startswith(SUB + ':'):
                     d = (self.files.get('sub') or {}).get(name)
@@ -192,7 +205,7 @@ class Model:
         self.vals = newvals
         self.known = copy.deepcopy(self.files)
         if self.files['sub'] is None:
-            self.aug = {}
+            self.aug = {k: v for k, v in self.aug.items() if k.startswith(':')}
         self.own = {k for k in self.own if (self.files.get('sub') or {}).get(k.split(':', 1)[1], {}).get('yield')}
 
     # ------------------------------------------------------------ operations (return True = predicted success)
@@ -217,7 +230,9 @@ class Model:
 
     def setup(self, D: T.Dict[str, str], native: bool = False) -> bool:
         merged = dict(self.cmdline)      # a leftover cmd_line.txt (failed wipe) is honoured, its machine files too
-        merged.update(D)
+        for k, v in D.items():
+            merged.pop(k, None)
+            merged[k] = v
         use_native = bool(self.native) and (native or self.native_recorded)
         m = self.clone()
         if not m.fresh(merged, self.native if use_native else None):
@@ -241,7 +256,7 @@ class Model:
                 continue
             # -U of a subproject's project option that has nothing to drop is a harmless no-op;
             # -U of a built-in that has no per-subproject override is an error
-            nm = k.split(':', 1)[1] if k.startswith(SUB + ':') else k
+            nm = split_key(k)[1]
             if k.startswith(SUB + ':') and nm not in BUILTIN_CHOICES and nm in (m.files.get('sub') or {}):
                 continue
             return False
@@ -250,11 +265,11 @@ class Model:
         # appeared in an edited option file are then not created yet) - but it is still recorded
         changed = bool(U)
         for k, v in typed.items():
-            name = k.split(':', 1)[1] if k.startswith(SUB + ':') else k
+            proj, name = split_key(k)
             if name in BUILTIN_CHOICES:
-                cur = m.aug.get(k, object()) if k.startswith(SUB + ':') else m.builtin.get(k)
+                cur = m.aug.get(k, object()) if proj is not None else m.builtin.get(k)
             else:
-                cur = m.vals.get(k, object())
+                cur = m.vals.get(name if proj == '' else k, object())
                 d = (m.files.get('sub') or {}).get(name) if k.startswith(SUB + ':') else None
                 if d is not None and d.get('yield') and k not in m.own:
                     changed = True       # pinning a yielding option is a change even if the stored value is equal
@@ -266,7 +281,7 @@ class Model:
                 m.aug.pop(k, None)
                 m.own.discard(k)
             self.__dict__.update(m.__dict__)
-        self.cmdline.update(D)
+        self.record(D)
         for k in U:
             self.cmdline.pop(k, None)
         return True
@@ -295,13 +310,13 @@ class Model:
             m._reconcile()
             m._store(typed)
             self.__dict__.update(m.__dict__)
-            self.cmdline.update(D)
+            self.record(D)
             return None
         # values given for options that are only now becoming known are applied after reconciliation
         m._reconcile()
         m._store(typed)
         self.__dict__.update(m.__dict__)
-        self.cmdline.update(D)
+        self.record(D)
         return True
 
     def _undetermined_success(self, D: T.Dict[str, str]) -> None:
@@ -323,6 +338,13 @@ class Model:
         self.cmdline = cl
         return True
 
+    def record(self, D: T.Dict[str, str]) -> None:
+        """The recorded command line is replayed in the order in which the assignments were last given
+        (an option can be on record under two spellings, 'opt' and ':opt')."""
+        for k, v in D.items():
+            self.cmdline.pop(k, None)
+            self.cmdline[k] = v
+
     # ------------------------------------------------------------ observation
     def effective(self) -> T.Dict[str, str]:
         """'proj:name' -> printed value, as a reconfiguration right now would report it."""
@@ -337,7 +359,7 @@ class Model:
         tb = dict(m.builtin)
         tb['debug'], tb['optimization'] = dbg, opt
         for k in ('buildtype', 'debug', 'optimization', 'warning_level', 'default_library'):
-            out[':' + k] = tb[k]
+            out[':' + k] = m.aug.get(':' + k, tb[k])
         sub = m.files['sub']
         if sub is not None:
             for name, o in sub.items():
